@@ -461,6 +461,7 @@ def check(pid, tier, only=None, jobs=None):
     known_hits = []
     inconclusive = []
     extra_fails = []
+    n_replayed = 0
     # cheapest failing harness first, so the replayed one is the quickest to reproduce
     order = sorted(all_info.items(), key=lambda kv: (kv[1].get("duration_s") or 0))
     for h, i in order:
@@ -492,6 +493,7 @@ def check(pid, tier, only=None, jobs=None):
         if tests:
             try:
                 results, rlog, names = native_replay(hm["crate"], h, tests)
+                n_replayed += len(results)
                 if any(v is True for v in results.values()):
                     reproduced = True
                 elif results and all(v is False for v in results.values()):
@@ -548,6 +550,14 @@ def check(pid, tier, only=None, jobs=None):
                 "reachability witness in it was SATISFIED (so its assumptions are satisfiable and the "
                 "assertions are reached).",
         "samples": samples,
+        "states": int(sum((i["stats"].get("size_program_expression") or 0) for i in all_info.values())) or len(decided),
+        "transitions": int(sum((i["stats"].get("vccs_generated") or 0) for i in all_info.values())) or len(decided),
+        "traces_validated_against_impl": n_replayed,
+        "states_transitions_meaning": "bounded model checking has no explicit state graph: 'states' is the number of "
+                                      "symbolic-execution steps (CBMC 'size of program expression', summed over the "
+                                      "harnesses of this run), 'transitions' the number of verification conditions CBMC "
+                                      "generated from them, 'traces_validated_against_impl' the number of solver "
+                                      "counterexample traces replayed natively (concrete playback) in this run",
         "obligations": obligations,
         "discharged": discharged,
         "exhaustive": False,
